@@ -97,6 +97,35 @@ func (w *World) drainOracles() {
 	if healthy {
 		w.asyncOracle("drain")
 	}
+	w.victimOracle()
+}
+
+// victimOracle (C18): a connection hit by a non-retryable fault is closed,
+// its handler saw exactly one OnClose with an error if it had been opened, and
+// its descriptor is released.
+func (w *World) victimOracle() {
+	if len(w.p.Faults) == 0 {
+		return
+	}
+	for _, ps := range w.peers {
+		if !ps.connected {
+			continue
+		}
+		cs := w.conns[ps.idx]
+		if cs != nil && w.faultTouched(cs) {
+			if !cs.closed {
+				w.violate("C18", "victim-not-closed", "with fault %s: conn %d was hit by the fault but is still open after the system went quiet", faultDesc(w.p.Faults), cs.idx)
+			} else if cs.closeErr == nil && !cs.localReq && !w.stopRequested {
+				w.violate("C18", "victim-closed-without-error", "with fault %s: conn %d was closed with a nil error", faultDesc(w.p.Faults), cs.idx)
+			}
+			if w.k.IsOpen(cs.fd) && w.k.FdGen(cs.fd) == cs.gen {
+				w.violate("C18", "victim-descriptor-not-released", "with fault %s: descriptor %d of conn %d is still open", faultDesc(w.p.Faults), cs.fd, cs.idx)
+			}
+		}
+		if cs == nil && w.k.SockFaulted(ps.srv) && !ps.srv.Closed() {
+			w.violate("C18", "victim-descriptor-not-released", "with fault %s: the connection of peer %d failed before it was opened but its descriptor is still open", faultDesc(w.p.Faults), ps.idx)
+		}
+	}
 }
 
 // asyncOracle: every accepted asynchronous request ran exactly once.
